@@ -24,9 +24,12 @@ if h:
             # <id>            target graph (canonical form) and number of Puts: model copier vs real Copier
             # <id>.k          certified checker iso_ok on the graphs read back from the two real files
             # <id>.k.cs/.ct   the harness's canonical form vs the extracted one, on the same graphs
-            kinds = {"model": [], "checker": [], "canon": []}
+            # <id>.k.y        per copied stream: ciphertext in the target file? model decision vs observation
+            kinds = {"model": [], "checker": [], "canon": [], "crypt": []}
             for k, a, b in mism:
-                if k.endswith(".k"):
+                if k.endswith(".k.y"):
+                    kinds["crypt"].append((k, a, b))
+                elif k.endswith(".k"):
                     kinds["checker"].append((k, a, b))
                 elif k.endswith(".cs") or k.endswith(".ct"):
                     kinds["canon"].append((k, a, b))
@@ -44,6 +47,12 @@ if h:
                     "(theorem iso_ok_sound no longer applies to them)" % len(kinds["checker"]),
                     [{"id": k, "impl": a[:200], "model": b[:200]} for k, a, b in kinds["checker"][:6]],
                 )
+            if kinds["crypt"]:
+                c.tie_broken(
+                    "StreamCrypt.predict_cipher (model of streamCryptRecipe / Writer.OpenStream) vs the real target files: "
+                    "in %d cases a copied stream's data is ciphertext where the model says plaintext or vice versa" % len(kinds["crypt"]),
+                    [{"id": k, "impl": a[:300], "model": b[:300]} for k, a, b in kinds["crypt"][:6]],
+                )
             if kinds["canon"]:
                 c.tie_broken(
                     "the harness's canonical graph form and the extracted Checker.canon differ in %d cases" % len(kinds["canon"]),
@@ -54,6 +63,7 @@ c.finish(
         "Redirect is called for references that have no translation yet (a later Redirect replaces a translation copies may already have used: copy_again_refuted)",
         "source and call objects are file-shaped: a stream is never a part of another object (PDF 7.3.8; true of everything the Reader returns); needed for copy_total only",
         "target object numbers stay below maxXRefSize (Writer.Alloc panics there by design)",
+        "stream data (copy_stream_bytes): the ciphers are any enc/dec with dec (enc x) = x, the remaining filters any function of the inlined /Filter and /DecodeParms that does not depend on object numbers; the source stream's filter chain is one GetFilters accepts; a /Crypt filter other than /Identity in an encrypted source is the copier's documented 'not yet supported' error",
         "reading the source raises no I/O error (C19); Writer.Put/Reader round trip of the written objects is C02",
         "isomorphism is stated with alias references contracted and /Filter, /DecodeParms inlined, as CopyReference and copyStreamDict define it; a null dictionary entry equals an absent one (the Writer drops it)",
     ],
